@@ -335,17 +335,38 @@ Section Kept.
   Notation cstate := (@cstate T).
   Implicit Types s : cstate.
 
+  Definition acq3 (p : phase) : Prop := p = PAcquiring \/ p = PAssigned \/ p = PAcqClosed.
+  (* a call keeps its id and body; a call in PAcquiring stays in the acquiring group *)
+  Definition same_ib s s' : Prop :=
+    forall j k, nth_error (calls s) j = Some k ->
+      exists k', nth_error (calls s') j = Some k' /\ c_id k' = c_id k /\ c_body k' = c_body k
+                 /\ (c_phase k = PAcquiring -> acq3 (c_phase k')).
   Definition phk s s' : Prop :=
-    length (calls s') = length (calls s) /\ forall j, ph s j <> Some PAcquiring -> ph s' j = ph s j.
+    length (calls s') = length (calls s) /\ (forall j, ph s j <> Some PAcquiring -> ph s' j = ph s j)
+    /\ same_ib s s'.
   Lemma phk_refl s : phk s s.
-  Proof. split; [reflexivity|]. intros j _. reflexivity. Qed.
+  Proof.
+    split; [reflexivity|]. split; [intros j _; reflexivity|].
+    intros j k E. exists k. repeat split; try assumption. intro H. left. exact H.
+  Qed.
   Lemma phk_trans s1 s2 s3 : phk s1 s2 -> phk s2 s3 -> phk s1 s3.
   Proof.
-    intros [L1 A] [L2 B]. split; [congruence|]. intros j H.
-    rewrite (B j), (A j H); [reflexivity|]. rewrite (A j H). exact H.
+    intros (L1 & A & I1) (L2 & B & I2). split; [congruence|]. split.
+    - intros j H. rewrite (B j), (A j H); [reflexivity|]. rewrite (A j H). exact H.
+    - intros j k E. destruct (I1 j k E) as (k1 & E1 & Ei1 & Eb1 & P1).
+      destruct (I2 j k1 E1) as (k2 & E2 & Ei2 & Eb2 & P2).
+      exists k2. split; [exact E2|]. split; [congruence|]. split; [congruence|].
+      intro H. destruct (P1 H) as [X|X]; [apply P2, X|].
+      assert (N : ph s2 j <> Some PAcquiring).
+      { unfold ph. rewrite E1. cbn. destruct X as [X|X]; rewrite X; discriminate. }
+      pose proof (B j N) as Y. unfold ph in Y. rewrite E1, E2 in Y. cbn in Y. injection Y as Y.
+      rewrite Y. right. exact X.
   Qed.
   Lemma phk_eq s s' : calls s' = calls s -> phk s s'.
-  Proof. intros E. split; [rewrite E; reflexivity|]. intros j _. apply ph_eq, E. Qed.
+  Proof.
+    intros E. split; [rewrite E; reflexivity|]. split; [intros j _; apply ph_eq, E|].
+    intros j k Ek. exists k. rewrite E. repeat split; try assumption. intro H. left. exact H.
+  Qed.
   Lemma phk_T s s' : TFrame s s' -> phk s s'.
   Proof. intro F. apply phk_eq, F. Qed.
   Lemma phk_X s s' : XFrame s s' -> phk s s'.
@@ -355,9 +376,15 @@ Section Kept.
 
   Lemma phk_release_permit s : winv s -> phk s (release_permit s).
   Proof.
-    intros W. split; [|intros j H; apply ph_release_permit; assumption].
-    destruct (release_permit_shape s W) as [(_ & -> & _)|(w & ws & k & _ & _ & _ & -> & _)];
-      [reflexivity|apply phase_calls_length].
+    intros W. split; [|split; [intros j H; apply ph_release_permit; assumption|]].
+    - destruct (release_permit_shape s W) as [(_ & -> & _)|(w & ws & k & _ & _ & _ & -> & _)];
+        [reflexivity|apply phase_calls_length].
+    - intros j k E.
+      destruct (release_permit_shape s W) as [(_ & -> & _)|(w & ws & kw & _ & _ & _ & -> & _)].
+      + exists k. repeat split; try assumption. intro H. left. exact H.
+      + rewrite nth_error_phase_calls. destruct (Nat.eqb w j); rewrite E; cbn [option_map].
+        * eexists. split; [reflexivity|]. cbn. repeat split. intros _. right. left. reflexivity.
+        * exists k. repeat split. intro H. left. exact H.
   Qed.
 
   Lemma phk_q_poll_recv s : winv s -> phk s (snd (q_poll_recv s)).
@@ -392,10 +419,33 @@ Section Kept.
     induction l as [|w r IH]; intro s; cbn [fold_left]; [reflexivity|].
     rewrite IH, set_phase_alt. cbn [calls upd_calls]. apply phase_calls_length.
   Qed.
+  Lemma ib_fold_set_phase p (l : list nat) : forall s j k,
+    nth_error (calls s) j = Some k ->
+    exists k', nth_error (calls (fold_left (fun acc w => set_phase acc w p) l s)) j = Some k'
+               /\ c_id k' = c_id k /\ c_body k' = c_body k /\ (c_phase k' = c_phase k \/ c_phase k' = p).
+  Proof.
+    induction l as [|w r IH]; intros s j k E; cbn [fold_left].
+    - exists k. repeat split; try assumption. left. reflexivity.
+    - assert (X : exists k1, nth_error (calls (set_phase s w p)) j = Some k1 /\ c_id k1 = c_id k
+                  /\ c_body k1 = c_body k /\ (c_phase k1 = c_phase k \/ c_phase k1 = p)).
+      { rewrite set_phase_alt. cbn [calls upd_calls]. rewrite nth_error_phase_calls.
+        destruct (Nat.eqb w j); rewrite E; cbn [option_map].
+        - eexists. split; [reflexivity|]. cbn. repeat split. right. reflexivity.
+        - exists k. repeat split. left. reflexivity. }
+      destruct X as (k1 & E1 & Ei & Eb & Ep). destruct (IH _ _ _ E1) as (k2 & E2 & Ei2 & Eb2 & Ep2).
+      exists k2. split; [exact E2|]. split; [congruence|]. split; [congruence|].
+      destruct Ep2 as [Y|Y]; [rewrite Y; exact Ep|right; exact Y].
+  Qed.
   Lemma phk_q_close s : winv s -> phk s (q_close s).
   Proof.
     intros W. split.
     { unfold q_close. destruct (rx_closed s); [reflexivity|]. cbn [calls upd_q]. apply len_fold_set_phase. }
+    split.
+    2: { intros j k E. unfold q_close. destruct (rx_closed s).
+         - exists k. repeat split; try assumption. intro H. left. exact H.
+         - cbn [calls upd_q]. destruct (ib_fold_set_phase PAcqClosed (waiters s) s j k E) as (k' & E' & Ei & Eb & Ep).
+           exists k'. repeat split; try assumption. intro H.
+           destruct Ep as [Y|Y]; [left; congruence|right; right; exact Y]. }
     intros j H. unfold q_close. destruct (rx_closed s); [reflexivity|].
     unfold ph at 1. cbn [calls upd_q]. change (ph (fold_left (fun acc w => set_phase acc w PAcqClosed) (waiters s) s) j = ph s j).
     apply ph_fold_set_phase. intro Hin. destruct (w_acq _ W j Hin) as (c & Hc & Hp).
@@ -519,9 +569,9 @@ Section Kept.
     assert (W0 : winv s0) by (eapply winv_frame; [exact W|reflexivity..]).
     destruct (poll_dispatch tp (fuel_of s0) s0) as [r s1] eqn:Ep.
     pose proof (phk_poll_dispatch _ _ _ _ Ep W0) as K1.
-    injection E as <- _. destruct K1 as [L1 K1]. split; [transitivity (length (calls s1)); [destruct r; reflexivity|exact L1]|].
-    intros j H. transitivity (ph s1 j); [apply ph_eq; destruct r; reflexivity|].
-    rewrite (K1 j H). apply ph_eq. reflexivity.
+    injection E as <- _.
+    eapply phk_trans; [apply (phk_eq s s0); reflexivity|]. eapply phk_trans; [exact K1|].
+    apply phk_eq. destruct r; reflexivity.
   Qed.
 End Kept.
 
